@@ -1,0 +1,16 @@
+//go:build verif
+
+package zcnsc
+
+import "github.com/0chain/common/core/util"
+
+// VerifEntityPrototypes returns the stored types of this contract (verification harness, C08).
+func VerifEntityPrototypes() []func() util.MPTSerializable {
+	return []func() util.MPTSerializable{
+		func() util.MPTSerializable { return &GlobalNode{} },
+		func() util.MPTSerializable { return &AuthorizerNode{} },
+		func() util.MPTSerializable { return NewUserNode("") },
+		func() util.MPTSerializable { return NewStakePool() },
+		func() util.MPTSerializable { return &AuthCount{} },
+	}
+}
